@@ -22,6 +22,7 @@ pub mod c22;
 pub mod c23;
 pub mod c24;
 pub mod c_engine;
+pub mod c07_long;
 pub mod c_fd;
 pub mod fd;
 pub mod e4;
